@@ -415,12 +415,18 @@ class Seq(object):
     for k, v in list(self.instr.stats.items()):
       if isinstance(v, (int, float)):
         self.stat_base[k] = self.stat_base.get(k, 0) + v
-    handlers = self.events.metricGenerated.handlers[:]
-    del self.events.metricGenerated.handlers[:]
-    try:
+    if i % 2 == 1:
+      # every other tick the relay's self-metrics go where they go in a daemon: through the generated pipeline into the
+      # send queues (they are datapoints like any other there: queued, written, or discarded and counted)
       self.instr.recordMetrics()
-    finally:
-      self.events.metricGenerated.handlers[:] = handlers
+      self.counters['stats_ticks_with_self_metrics'] = self.counters.get('stats_ticks_with_self_metrics', 0) + 1
+    else:
+      handlers = self.events.metricGenerated.handlers[:]
+      del self.events.metricGenerated.handlers[:]
+      try:
+        self.instr.recordMetrics()
+      finally:
+        self.events.metricGenerated.handlers[:] = handlers
     self.counters['stats_ticks'] = self.counters.get('stats_ticks', 0) + 1
 
   def stat(self, k):
@@ -480,7 +486,10 @@ class Seq(object):
       acc = [e for e in ents if e['outcome'] == 'accepted']
       w = self.written(d)
       wid = [x[0] for x in w]
+      selfp = '%s.relays.' % self.settings.CARBON_METRIC_PREFIX
       for (i, m, v) in w:
+        if m.startswith(selfp):
+          continue            # the relay's own statistics (arbitrary values)
         if m != self.name_of(i) or v != float(i):
           self.viol('wire/altered', '%s: datapoint id %d written as (%r, %r)' % (key, i, m, v))
       q = [int(x[1][0]) for x in f.queue]
